@@ -425,8 +425,10 @@ func genC09(e *emitter, tier string, seed uint64) {
 				ss = "ABSENT"
 			}
 			txid := fld(32)
-			if r.chance(6) {
-				txid = hex.EncodeToString(r.bytes(31))
+			if r.chance(20) {
+				// every length class of the previous-transaction id, far beyond 32 bytes too (a decoder that copies the
+				// digits into a fixed buffer must measure them first)
+				txid = hex.EncodeToString(r.bytes([]int{0, 1, 31, 33, 34, 48, 64, 96, 300}[r.n(9)]))
 			}
 			vin = append(vin, fmt.Sprintf("ss:%s,txid:%s,vout:%d,seq:%d", ss, txid, r.n(9), r.u32edge()))
 		}
